@@ -14,7 +14,7 @@ class ExtractionError(Exception):
     pass
 
 
-def closure(db, root, replace=()):
+def closure(db, root, replace=(), extra_roots=()):
     F = db['functions']
     seen = []
     seenset = set()
@@ -54,6 +54,8 @@ def closure(db, root, replace=()):
         for c in f['calls']:
             visit(c)
         seen.append(cn)
+    for r in extra_roots:
+        visit(r)
     visit(root)
     return seen, sorted(globs), sorted(externs)
 
@@ -68,8 +70,8 @@ def fill(code, contract):
     return re.sub(r'[ \t]*/\*@LOOP(\d+)@\*/\n', lp, code)
 
 
-def assemble(db, root, contracts, replace=(), harness='', includes=('avm_base.h',), spec_includes=(), model_text=None):
-    fns, globs, externs = closure(db, root, replace)
+def assemble(db, root, contracts, replace=(), harness='', includes=('avm_base.h',), spec_includes=(), model_text=None, extra_roots=()):
+    fns, globs, externs = closure(db, root, replace, extra_roots)
     F = db['functions']
     out = []
     for inc in includes:
